@@ -63,7 +63,29 @@ type rForward struct {
 	msg     *api.ReplicateMsg
 }
 
+// rStreams is a fake StreamCreator: one buffered channel per source vchannel, the seek
+// position it was opened with is recorded.
+type rStreams struct {
+	chans map[string]chan *msgstream.MsgPack
+	seeks map[string]*msgstream.MsgPosition
+}
+
+func (s *rStreams) GetStreamChan(ctx context.Context, vchannel string, seek *msgstream.MsgPosition) (<-chan *msgstream.MsgPack, io.Closer, error) {
+	ch := make(chan *msgstream.MsgPack, 8)
+	s.chans[vchannel] = ch
+	s.seeks[vchannel] = seek
+	n := 0
+	return ch, rNopCloser{&n}, nil
+}
+func (s *rStreams) CheckConnection(ctx context.Context, vchannel string, seek *msgstream.MsgPosition) error {
+	return nil
+}
+func (s *rStreams) GetChannelLatestMsgID(ctx context.Context, channelName string) ([]byte, error) {
+	return []byte("latest"), nil
+}
+
 type rHandlerEnv struct {
+	streams    *rStreams
 	h          *replicateChannelHandler
 	target     *rTarget
 	droppedC   map[int64]bool
@@ -82,13 +104,14 @@ var _ io.Closer = rNopCloser{}
 // initReplicateChannelHandler does, minus the stream creation).
 func rNewHandler(srcP, tgtP string) *rHandlerEnv {
 	env := &rHandlerEnv{target: &rTarget{parts: map[string]int64{}}, droppedC: map[int64]bool{}, droppedP: map[int64]bool{},
-		eventChan: make(chan *api.ReplicateAPIEvent, 16)}
+		eventChan: make(chan *api.ReplicateAPIEvent, 16), streams: &rStreams{chans: map[string]chan *msgstream.MsgPack{}, seeks: map[string]*msgstream.MsgPosition{}}}
 	h := &replicateChannelHandler{
 		replicateCtx:      context.Background(),
 		replicateID:       rRID,
 		sourcePChannel:    srcP,
 		targetPChannel:    tgtP,
 		targetClient:      env.target,
+		streamCreator:     env.streams,
 		metaOp:            &api.DefaultMetaOp{},
 		collectionRecords: map[int64]*model.TargetCollectionInfo{},
 		collectionNames:   map[string]*model.HandlerCollectionInfo{},
